@@ -58,7 +58,8 @@ type Sink struct{ Hits []Hit }
 
 func (s *Sink) reset() { s.Hits = s.Hits[:0] }
 
-func collect(c fox.Context) []ref.Param {
+// Collect returns the parameters a context exposes.
+func Collect(c fox.Context) []ref.Param {
 	var ps []ref.Param
 	for p := range c.Params() {
 		ps = append(ps, ref.Param{Key: p.Key, Value: p.Value})
@@ -78,19 +79,19 @@ type Router struct {
 func GlobalOptions(g Global, sink *Sink) []fox.GlobalOption {
 	opts := []fox.GlobalOption{
 		fox.WithNoRouteHandler(func(c fox.Context) {
-			sink.Hits = append(sink.Hits, Hit{Kind: "noroute", Pattern: c.Pattern(), Params: collect(c), Scope: c.Scope(), RouteNil: c.Route() == nil})
+			sink.Hits = append(sink.Hits, Hit{Kind: "noroute", Pattern: c.Pattern(), Params: Collect(c), Scope: c.Scope(), RouteNil: c.Route() == nil})
 			c.Writer().WriteHeader(http.StatusNotFound)
 		}),
 	}
 	if g.NoMethod {
 		opts = append(opts, fox.WithNoMethodHandler(func(c fox.Context) {
-			sink.Hits = append(sink.Hits, Hit{Kind: "nomethod", Pattern: c.Pattern(), Params: collect(c), Scope: c.Scope(), RouteNil: c.Route() == nil})
+			sink.Hits = append(sink.Hits, Hit{Kind: "nomethod", Pattern: c.Pattern(), Params: Collect(c), Scope: c.Scope(), RouteNil: c.Route() == nil})
 			c.Writer().WriteHeader(http.StatusMethodNotAllowed)
 		}))
 	}
 	if g.AutoOptions {
 		opts = append(opts, fox.WithOptionsHandler(func(c fox.Context) {
-			sink.Hits = append(sink.Hits, Hit{Kind: "options", Pattern: c.Pattern(), Params: collect(c), Scope: c.Scope(), RouteNil: c.Route() == nil})
+			sink.Hits = append(sink.Hits, Hit{Kind: "options", Pattern: c.Pattern(), Params: Collect(c), Scope: c.Scope(), RouteNil: c.Route() == nil})
 			c.Writer().WriteHeader(http.StatusOK)
 		}))
 	}
@@ -103,7 +104,7 @@ func GlobalOptions(g Global, sink *Sink) []fox.GlobalOption {
 	// observe the redirect handler without changing it
 	opts = append(opts, fox.WithMiddlewareFor(fox.RedirectHandler, func(next fox.HandlerFunc) fox.HandlerFunc {
 		return func(c fox.Context) {
-			sink.Hits = append(sink.Hits, Hit{Kind: "redirect", Pattern: c.Pattern(), Params: collect(c), Scope: c.Scope(), RouteNil: c.Route() == nil})
+			sink.Hits = append(sink.Hits, Hit{Kind: "redirect", Pattern: c.Pattern(), Params: Collect(c), Scope: c.Scope(), RouteNil: c.Route() == nil})
 			next(c)
 		}
 	}))
@@ -140,7 +141,7 @@ func EffectiveTS(g Global, r RouteSpec) int {
 // Handler returns the recording route handler for a pattern.
 func (s *Sink) Handler(pattern string) fox.HandlerFunc {
 	return func(c fox.Context) {
-		s.Hits = append(s.Hits, Hit{Kind: "route", Pattern: c.Pattern(), Params: collect(c), Scope: c.Scope(), RouteNil: c.Route() == nil})
+		s.Hits = append(s.Hits, Hit{Kind: "route", Pattern: c.Pattern(), Params: Collect(c), Scope: c.Scope(), RouteNil: c.Route() == nil})
 		_ = pattern
 		c.Writer().WriteHeader(http.StatusOK)
 	}
@@ -261,7 +262,7 @@ func DoLookup(l Looker, q Req) Obs {
 	if rte == nil {
 		return Obs{Tsr: tsr}
 	}
-	o := Obs{Pattern: rte.Pattern(), Tsr: tsr, HasPs: true, Params: collect(cc)}
+	o := Obs{Pattern: rte.Pattern(), Tsr: tsr, HasPs: true, Params: Collect(cc)}
 	cc.Close()
 	return o
 }
